@@ -64,10 +64,12 @@ Section Sites.
     end.
 End Sites.
 
-(* The object table the library's own pipeline hands to Operator (exporters/numeric_trajectory_exporter.py
-   parse_plan -> create_single_triplet(..., problem.objects); multi_agent_trajectory_exporter likewise):
-   the problem's objects only - the domain's constants are NOT part of it, so quantified conditions and effects
-   never range over a constant (finding D30).  After the repair proposed in proposed_fixes/D30.diff
-   (Operator.quantification_objects = {**domain.constants, **problem_objects}) this becomes
-   [dupdate (d_consts dom) objs]. *)
-Definition pipeline_objects (dom : mdomain) (objs : pydict string) : pydict string := objs.
+(* The objects an Operator's quantified conditions and effects range over: Operator.quantification_objects
+   (pddl_operator.py, after the repair of D30) = {**domain.constants, **problem_objects} - the domain's constants
+   first, then the problem's objects (an object named like a constant overrides it, keeping the constant's position).
+   The library's pipeline (exporters/numeric_trajectory_exporter.py parse_plan -> create_single_triplet(...,
+   problem.objects); multi_agent_trajectory_exporter likewise) hands the problem's objects to Operator.
+   Before the repair the table was [objs] alone: quantifiers never ranged over a constant (finding D30, fixed). *)
+Definition pipeline_objects (dom : mdomain) (objs : pydict string) : pydict string := dupdate (d_consts dom) objs.
+(* the pinned behaviour, kept for the refutation theorem *)
+Definition pipeline_objects_before_D30 (dom : mdomain) (objs : pydict string) : pydict string := objs.
